@@ -123,7 +123,8 @@ def lemmas(report, workers=8):
     for d in results:
         kind = ("keyword" if d["desc"].startswith("keyword") else "name" if d["desc"].startswith("name") else
                 "number" if d["desc"].startswith("numeric") else "tag" if "tag" in d["desc"] else
-                "newline" if d["desc"].startswith(("line end", "comment")) else "blank" if d["desc"].startswith("blanks") else "other")
+                "newline" if d["desc"].startswith(("line end", "comment")) else "blank" if d["desc"].startswith("blanks") else
+                "string" if d["desc"].startswith("string") else "other")
         by.setdefault(kind, []).append(d)
     for kind, ds in sorted(by.items()):
         ob = Obligation(name=f"ampgen lexer lemma {kind.upper()}: {len(ds)} (state, follow-set, terminal) instances", engine="smt",
